@@ -212,7 +212,8 @@ func r042(c *an.Ctx) {
 	}
 	del := mustFunc(c, rule, resPkg, "Collection", "Delete")
 	if del != nil && okc {
-		for _, s := range an.CallsTo(del, busSend) {
+		for _, vc := range an.CallsToDeep(del, busSend) {
+			s := vc.Inner // the publication itself (in Delete, or in the helper that holds the locked step)
 			fields, _ := litFields(s.Common().Args[2])
 			k, isC := an.ConstInt(fields["ChangeType"])
 			_, hasNew := fields["NewValue"]
@@ -284,7 +285,8 @@ func r043(c *an.Ctx) {
 	check("Value", "set", "changeTime")
 	check("Collection", "Update", "changeTime")
 	if fn := mustFunc(c, rule, resPkg, "Collection", "Delete"); fn != nil {
-		for _, s := range an.CallsTo(fn, busSend) {
+		for _, vc := range an.CallsToDeep(fn, busSend) {
+			s := vc.Inner
 			fields, _ := litFields(s.Common().Args[2])
 			ok := false
 			for _, v := range an.Sources(fields["ChangeTime"]) {
